@@ -39,7 +39,20 @@ class HierarchyFilter(Filter):
 
     @property
     def parent_changed(self):
-        return hashobj(self._parent_rtdc_ds.filter.all) != self._parent_hash
+        return self._get_parent_hash() != self._parent_hash
+
+    def _get_parent_hash(self):
+        """Hash that changes when the events of the parent change
+
+        The events of the parent are defined by its filter and, if the
+        parent is a hierarchy child itself, by the filters of all of
+        its ancestors (which are reflected in its hash).
+        """
+        parent = self._parent_rtdc_ds
+        tohash = [parent.filter.all]
+        if parent.format == "hierarchy":
+            tohash.append(parent.hash)
+        return hashobj(tohash)
 
     def apply_manual_indices(self, rtdc_ds, manual_indices):
         """Write to `self.manual`
@@ -137,4 +150,4 @@ class HierarchyFilter(Filter):
         # hold reference to rtdc_ds parent
         # (not to its filter, because that is reinstantiated)
         self._parent_rtdc_ds = parent_rtdc_ds
-        self._parent_hash = hashobj(self._parent_rtdc_ds.filter.all)
+        self._parent_hash = self._get_parent_hash()
